@@ -90,7 +90,8 @@ func (cm *connManager) handleNewConn(regManager *cj.RegistrationManager, clientC
 
 	fd, err := clientConn.File()
 	if err != nil {
-		logger.Errorln("failed to get file descriptor on clientConn:", err)
+		// (*net.TCPConn).File wraps its error in a *net.OpError naming both endpoints
+		logger.Errorln("failed to get file descriptor on clientConn:", generalizeErr(err))
 		return
 	}
 
